@@ -582,6 +582,15 @@ fn check_partial_single_use(once: bool, ordered: bool, routing: &[u8]) -> Result
     Ok(summary.join(","))
 }
 
+/// A panic that escapes a case (construction refused, teardown of an inconsistent mock, ...) is a
+/// finding about that case, not a reason to stop exploring.
+fn guarded(f: impl FnOnce() -> Result<String, String>) -> Result<String, String> {
+    match catch(f) {
+        Ok(r) => r,
+        Err(msg) => Err(format!("panicked outside a request: {msg}")),
+    }
+}
+
 fn main() {
     silence_panics();
     let ctx: &'static vh::explore::Ctx = Box::leak(Box::new(vh::explore::Ctx::from_args("C12")));
@@ -605,7 +614,7 @@ fn main() {
                 stats.add("traces_validated_against_impl", 1);
                 stats.add("transitions", routing.len() as u64 + 2);
                 let by_verify = routing.len() % 2 == 1;
-                match check_single_use(shape, path, routing, by_verify).and_then(|s| check_single_use(shape, path, routing, !by_verify).map(|_| s)) {
+                match guarded(|| check_single_use(shape, path, routing, by_verify).and_then(|s| check_single_use(shape, path, routing, !by_verify).map(|_| s))) {
                     Ok(summary) => {
                         outcomes.insert(format!("single:{summary}"));
                     }
@@ -625,7 +634,7 @@ fn main() {
                 stats.add("traces_validated_against_impl", 1);
                 stats.add("transitions", routing.len() as u64 + 2);
                 stats.add("partial_mock_cases", 1);
-                match check_partial_single_use(once, ordered, routing) {
+                match guarded(|| check_partial_single_use(once, ordered, routing)) {
                     Ok(summary) => {
                         outcomes.insert(format!("partial:{summary}"));
                     }
@@ -647,7 +656,7 @@ fn main() {
                 ctx.tick();
                 stats.add("traces_validated_against_impl", 1);
                 stats.add("transitions", routing.len() as u64 + 2);
-                match check_multi_use(shape, path, routing, false).and_then(|s| check_multi_use(shape, path, routing, true).map(|_| s)) {
+                match guarded(|| check_multi_use(shape, path, routing, false).and_then(|s| check_multi_use(shape, path, routing, true).map(|_| s))) {
                     Ok(summary) => {
                         outcomes.insert(format!("multi:{summary}"));
                     }
